@@ -299,6 +299,10 @@ def c02(prop, tier, seed, work):
              stores=STORES3, obs=["sess"], mc_contents=["m1", "a1"], mc_depth=(5, 6)),
         dict(name="push2", profile="push", contents=["m3", "x3", "m4", "m5", "x2"], algs=["sha256", "sha512"], depth=(18, 30), num=(25, 300),
              stores=STORES3, obs=["ranges"]),
+        # content whose first upload is older than the grace period is pushed again, then the server restarts (the directory
+        # store collects on Close): what was acknowledged is still there
+        dict(name="pushage", profile="pushage", contents=["m1", "b3"], algs=["sha256"], depth=(18, 30), num=(25, 250),
+             stores=["dir", "mem"], obs=[], nrepos=1),
     ]
     return histories(prop, tier, seed, work, scs,
                      "trace validation of TLC-generated histories against Registry + exhaustive model check",
@@ -461,6 +465,12 @@ def c06(prop, tier, seed, work):
         scs.append(dict(name="pass-%s%s" % ("U" if u else "u", "W" if w else "w"), profile="gcpass", contents=["m1", "m2", "x1", "a1", "b3"], algs=["sha256"],
                         depth=(22, 36), num=(10, 100), stores=["mem", "dir"], obs=[], nrepos=2,
                         cfg={"untagged": u, "dangling": False, "withSubj": w, "grace": False, "emptyRepo": False}))
+    # a memory store over a directory that already holds the content: pushed again it is held twice; one pass hides it all
+    for u in (True, False):
+        scs.append(dict(name="gcmd-%s" % ("U" if u else "u"), profile="gcmd", contents=["m1", "m2"], algs=["sha256"], depth=(22, 34), num=(15, 150),
+                        stores=["dir"], obs=[], nrepos=1, reconf=[{"store": "memdir", "untagged": u, "grace": False}],
+                        # (the directory store itself runs with a policy under which the collection of its Close removes nothing)
+                        cfg={"untagged": False, "dangling": False, "withSubj": False, "grace": True, "emptyRepo": False}))
     return histories(prop, tier, seed, work, scs, "", "a history is non-trivial if it runs at least one collection after at least one manifest push; distinct = distinct operation sequences",
                      {"GC", "GCPass"})
 
@@ -1207,18 +1217,30 @@ FREE_EPISODES = [
 ]
 
 
-def free_episode(setup, reqs):
+# episodes with a collection of the repository among the requests (the server collects untagged manifests and unreferenced
+# blobs without a grace period): the collection waits for the requests in flight and keeps new ones waiting
+GC_EPISODES = [
+    ("s0", [("Put", "m2"), ("GC",)]), ("s1", [("Put", "a2"), ("GC",), ("Refs", "m1")]), ("s3", [("Del", "m2"), ("GC",), ("Put", "m2", "t2")]),
+    ("s0", [("BlobPut", "b4"), ("GC",), ("BlobGet", "b4")]), ("s2", [("Del", "a1"), ("GC",)]), ("s3", [("Del", "none", "t2"), ("GC",), ("Get", "t1")]),
+    ("s0", [("Put", "m2", "t2"), ("GC",), ("BlobDel", "b3")]), ("s1", [("Del", "m1"), ("GC",), ("Put", "a2")]),
+]
+
+
+def free_episode(setup, reqs, gcon=False):
     out = []
     for r in reqs:
         q = {"k": r[0], "d": "none", "t": "none", "s": "none"}
         if r[0] == "Refs":
             q["s"] = r[1]
-        else:
+        elif len(r) > 1:
             q["d"] = r[1]
             if len(r) > 2:
                 q["t"] = r[2]
         out.append(q)
-    return {"setup": setup, "reqs": out, "sched": []}
+    ep = {"setup": setup, "reqs": out, "sched": []}
+    if gcon:
+        ep["gcon"] = True
+    return ep
 
 
 def conc_run(work, vh, episodes, name, stores, free, seed, burst=0):
@@ -1284,6 +1306,7 @@ def c11(prop, tier, seed, work):
         episodes += [dict(e, adv=True) for e in eps] if lock == "FALSE" else eps
     nmodel = len(episodes)
     episodes += [free_episode(s, r) for s, r in FREE_EPISODES] * (2 if quick else 8)
+    episodes += [free_episode(s, r, gcon=True) for s, r in GC_EPISODES] * (3 if quick else 10)
     x = conc_run(work, vh, episodes, "main", "mem,dir" if quick else "mem,dir,memdir", 1 if quick else 2, seed, burst=4 if quick else 6)
     log("%d episodes (%d with a TLC schedule), %d runs, %d rejected, %d drift, %d hung (exec %.1fs, tlc %.1fs)" % (len(episodes), nmodel, x["runs"], len(x["rejected"]), len(x["drift"]), x["hung"], x["exec"], x["tlc"]))
     violations = []
